@@ -43,7 +43,8 @@ class Gen:
 
     def __init__(self, rng, max_depth=3, classes=True, share=0.15, renames=0.3, defaults=0.15,
                  explicit_required=0.3, inheritance=0.25, formats=False, lookalike_literals=True,
-                 shared_props=0.0, pattern_overlap=0.0, keyword_names=0.0, long_descriptions=False):
+                 shared_props=0.0, pattern_overlap=0.0, keyword_names=0.0, long_descriptions=False,
+                 vocabulary_class_names=0.0):
         self.rng = rng
         self.max_depth = max_depth
         self.classes = classes
@@ -60,6 +61,8 @@ class Gen:
         # (only where reprs are not rendered over and over: error messages quote whole element trees)
         self.long_descriptions = long_descriptions
         self.pattern_overlap = pattern_overlap
+        # class names that BEGIN like a name of the typing / element vocabulary (`ListOptions`, `UnionJack`)
+        self.vocabulary_class_names = vocabulary_class_names
         self.next_id = 0
         self.class_count = 0
         self.shareable = []  # ids of nodes that may be referenced again
@@ -244,6 +247,9 @@ class Gen:
         self.class_count += 1
         node = {"t": "Object", "name": f"K{self.class_count}", "kw": {}, "props": {}, "base": None,
                 "id": self.new_id()}
+        if rng.random() < self.vocabulary_class_names:
+            node["name"] = rng.choice(["ListOptions", "ListItem", "Listing", "UnionJack", "MaybeNot", "AnyThing",
+                                       "DictLike", "OptionalExtra", "TupleSpace", "Anything"]) + str(self.class_count)
         if base is None and self.class_ids and rng.random() < self.inheritance:
             base = rng.choice(self.class_ids)
         if base is not None:
